@@ -461,7 +461,9 @@ func (r *run) execute() result {
 		case "shutdown":
 			r.doShutdown(s.Pool)
 		case "waitShutdown":
-			r.doWaitShutdown(s.Pool)
+			if !r.pools[s.Pool].running { // ShutdownComplete.Wait on a running pool would (rightly) never return
+				r.doWaitShutdown(s.Pool)
+			}
 		case "restart":
 			p := r.pools[s.Pool]
 			wasRunning := p.running
@@ -471,7 +473,7 @@ func (r *run) execute() result {
 			if !wasRunning {
 				// Start has to wait for the workers of the previous run; let it get there before the
 				// held tasks are released (only makes the interesting interleaving more likely)
-				ctl.WaitChan(done, 300*time.Microsecond)
+				ctl.WaitChan(done, time.Millisecond)
 				r.res.Restarts++
 			}
 			r.releaseIn(map[int]bool{s.Pool: true})
@@ -511,14 +513,28 @@ func (r *run) execute() result {
 			what := fmt.Sprintf("g%d.Shutdown()", s.Group)
 			if r.within(what, r.groups[s.Group].Shutdown) {
 				ret := r.clock.Tick()
-				if !groupShut[s.Group] {
-					r.checkWaitReturn(what, pset, call, ret)
+				r.checkWaitReturn(what, pset, call, ret)
+				// Group.Shutdown shuts its pools down only once (isShutdown flag, set for all sub-groups
+				// too): a repeated call only waits and leaves pools that were restarted since running
+				var shut func(g int)
+				shut = func(g int) {
+					if groupShut[g] {
+						return
+					}
+					groupShut[g] = true
+					for i, ps := range r.prog.Pools {
+						if ps.Group == g {
+							r.pools[i].running = false
+							r.pools[i].everShutdown = true
+						}
+					}
+					for child, parent := range r.prog.Groups {
+						if parent == g {
+							shut(child)
+						}
+					}
 				}
-				groupShut[s.Group] = true
-				for i := range pset {
-					r.pools[i].running = false
-					r.pools[i].everShutdown = true
-				}
+				shut(s.Group)
 			}
 		case "hooked":
 			r.hooked(s)
@@ -582,7 +598,9 @@ func (r *run) hooked(s step) {
 	// the grace periods below only give the racing call time to run to completion while the
 	// submitter is parked; an implementation that makes Shutdown wait for the submitter simply
 	// does not finish within them
-	const grace = 2 * time.Millisecond
+	// (lateGrace is only ever waited for when Shutdown returned while the submitter was parked, i.e. when the
+	// implementation does not make Shutdown wait for the submitter)
+	const grace, lateGrace = 2 * time.Millisecond, 100 * time.Millisecond
 	sDone := make(chan struct{})
 	go func() { p.wp.Shutdown(); close(sDone) }()
 	shutdownReturned := ctl.WaitChan(sDone, grace)
@@ -593,12 +611,12 @@ func (r *run) hooked(s step) {
 		r.releaseIn(map[int]bool{s.Pool: true})
 		wDone = make(chan struct{})
 		go func() { p.wp.ShutdownComplete.Wait(); close(wDone) }()
-		ctl.WaitChan(wDone, grace)
+		ctl.WaitChan(wDone, lateGrace)
 	case s.Then == "shutdown+start" && shutdownReturned:
 		r.releaseIn(map[int]bool{s.Pool: true})
 		stDone = make(chan struct{})
 		go func() { p.wp.Start(); close(stDone) }()
-		ctl.WaitChan(stDone, grace)
+		ctl.WaitChan(stDone, lateGrace)
 	}
 	unpark()
 	if !ctl.WaitChan(hDone, ctl.HangTimeout) {
